@@ -29,7 +29,7 @@ func (v *Verifier) addBoundedStandIn(fc *FuncContract) {
 	}
 	v.UsedEnv["bounded stand-in for "+fc.Key+": /verif/bounded/"+name+".go exercises the assumed contract on every run ("+strings.TrimSpace(strings.TrimPrefix(fc.Options["bounded"], name))+"); labelled bounded, not counted as proved"] = true
 	v.Obls = append(v.Obls, &Obligation{Name: obligationName(fc, "bounded_stand_in"), Func: fc.Key, Label: "bounded_stand_in", Kind: "bounded_exec", Goal: TTrue, Bounded: true,
-		Harness: name, Notes: []string{"body not verified; assumed contract exercised by /verif/bounded/" + name + ".go (" + strings.TrimSpace(strings.TrimPrefix(fc.Options["bounded"], name)) + ")"}})
+		Harness: name, Notes: []string{"exercised by /verif/bounded/" + name + ".go (" + strings.TrimSpace(strings.TrimPrefix(fc.Options["bounded"], name)) + "); bounded, not counted as proved"}})
 }
 
 func runBoundedExecs(obls []*Obligation, p *Program, repo, verifDir string) {
